@@ -226,10 +226,12 @@ MaskImpl(s, U) ==               \* centre mode only (n = 1)
   ELSE GridOn(Plain(s), BoxOf(s, U).box, U, 1)
 
 (* which (shape, mode) combinations yield a mask; the others raise NotImplementedError *)
+RECURSIVE Supported(_, _)
 Supported(s, mode) ==
   CASE s.k \in {"circle", "ellipse"} -> TRUE
     [] s.k \in {"rectangle", "polygon"} -> mode \in {"center", "subpixels"}
-    [] s.k \in {"cannulus", "eannulus", "rannulus", "compound"} -> mode = "center"
+    [] s.k \in {"cannulus", "eannulus", "rannulus"} -> mode = "center"
+    [] s.k = "compound" -> mode = "center" /\ Supported(s.a, mode) /\ Supported(s.b, mode)     \* a compound of a point, a line or a text has no mask either
     [] OTHER -> FALSE
 Modes == <<"center", "subpixels", "exact">>
 
